@@ -1,6 +1,6 @@
 //! C03 (entry points agree, faithful projection), C11 (strict mode), C12 (decode errors): same typed-case
 //! generator as C01, different oracles.
-use crate::c01::{compile_case, explain, gen_typed_case, gen_values, node_case, TypedCase};
+use crate::c01::{compile_case, gen_typed_case, gen_values, node_case, TypedCase};
 use crate::den::{gen_env_and_roots, Env, GenCfg, D, TYPED_ARRAYS};
 use crate::jsval::{inject_extra_key, JsVal};
 use crate::member::{Mode, Ref, Tri};
@@ -443,7 +443,7 @@ impl Check for C11 {
                     // types spelled with Exclude are re-materialised from the semantic engine and inherit its listed
                     // findings (here typically `{}` absorbing the other object members of a union)
                     let plain: Vec<String> = if case.used.contains_key("exclude") { crate::csem::engine_family_sigs("c11_strict_membership", &case.env, d, Some(v)) } else { vec!["c11_strict_membership".to_string()] };
-                    let sigs: Vec<String> = match explain(&case.env, d, v, Mode::Strict, g_strict) {
+                    let sigs: Vec<String> = match crate::c01::explain_with(&case.env, d, v, Mode::Strict, g_strict, case.used.contains_key("exclude")) {
                         Some("strict_inter_per_member") if !unmerged => plain,
                         Some(q) => vec![q.to_string()],
                         None => plain,
